@@ -59,7 +59,9 @@ class BufferAPI
         stride[0] = atomicSize() * FixedArrayWidth<T>::value * interleave;
         for (int d=1; d<dimensions; d++)
         {
-            shape[d]  = FixedArrayWidth<T>::value * interleave;
+            //  the inner dimension holds the element's components whatever
+            // the stride between elements is (the stride is in stride[0])
+            shape[d]  = FixedArrayWidth<T>::value;
             stride[d] = atomicSize();
         }
     }
